@@ -203,6 +203,56 @@ static void part_c(Ctx& ctx, unsigned k) {
   }
 }
 
+// Part D: long carry chains - many more input limbs than output limbs.  Every limb sits at a digit boundary
+// (values from the boundary set), with one deviating position: a carry born anywhere must ripple through
+// an arbitrarily long run of boundary digits into the kept limbs ("dropped low limbs still propagate").
+static void part_d(Ctx& ctx, unsigned k, bool thorough) {
+  const uint64_t N = 4096;
+  MODULE* mod = get_module(N, FFT64, CFG_NATIVE);
+  const i128 h = (i128)1 << (k - 1);
+  std::vector<int64_t> Bs;
+  for (i128 v : {h - 1, h, -h, -h - 1}) if (v <= ((i128)1 << 62) && v >= -((i128)1 << 62)) Bs.push_back((int64_t)v);
+  std::vector<unsigned> sizes = {5, 6, 8, 9, 12, 16, 24, 33, 48, 70, 100, 140};
+  if (thorough) { sizes.push_back(200); sizes.push_back(300); }
+  for (unsigned as : sizes) {
+    // tuples: all limbs = x except position j = y (x, y in the boundary set), plus j = none
+    std::vector<std::vector<int64_t>> tuples;
+    for (int64_t x : Bs) { tuples.push_back(std::vector<int64_t>(as, x)); for (int64_t y : Bs) if (y != x) for (unsigned j = 0; j < as; ++j) { std::vector<int64_t> t(as, x); t[j] = y; tuples.push_back(t); } }
+    // and alternating boundary patterns
+    for (int64_t x : Bs) for (int64_t y : Bs) if (x != y) { std::vector<int64_t> t(as); for (unsigned j = 0; j < as; ++j) t[j] = (j & 1) ? x : y; tuples.push_back(t); }
+    std::vector<unsigned> rss = {0, 1, 2, 3, as / 2, as - 1, as, as + 2};
+    for (size_t base = 0, batch = 0; base < tuples.size(); base += N, ++batch) {
+      size_t cnt = std::min<size_t>(N, tuples.size() - base);
+      for (unsigned rs : rss) {
+        std::string id = sfmt("long-chain|k=%u|as=%u|rs=%u|batch=%zu", k, as, rs, batch);
+        if (!ctx.want(id)) continue;
+        ctx.begin_case(id);
+        GBuf a((size_t)as * N * 8, 0), r((size_t)rs * N * 8, 8), t(vec_znx_normalize_base2k_tmp_bytes(mod), 16);
+        for (unsigned i = 0; i < as; ++i) for (uint64_t j = 0; j < N; ++j) a.as<int64_t>()[i * N + j] = tuples[base + (j < cnt ? j : 0)][i];
+        prefill(r.p, r.bytes, 1); prefill(t.p, t.bytes, 2);
+        vec_znx_normalize_base2k(mod, k, r.as<int64_t>(), rs, N, a.as<int64_t>(), as, N, t.p);
+        std::vector<i128> limbs(as), dig;
+        for (uint64_t j = 0; j < cnt; ++j) {
+          for (unsigned i = 0; i < as; ++i) limbs[i] = tuples[base + j][i];
+          balanced_digits(k, limbs, dig);
+          bool bad = false;
+          for (unsigned i = 0; i < rs && !bad; ++i) {
+            int64_t e = i < as ? (int64_t)dig[i] : 0;
+            if (r.as<int64_t>()[i * N + j] != e) {
+              ctx.violation(id, sfmt("a_size=%u limbs all %lld except limb %lld...: output limb %u is %lld, the balanced digit is %lld (a carry from a dropped low limb was lost or mis-propagated)", as, (long long)tuples[base + j][0], (long long)tuples[base + j][as - 1], i, (long long)r.as<int64_t>()[i * N + j], (long long)e));
+              bad = true;
+            }
+          }
+          if (bad) break;
+        }
+        if (!a.guards_ok() || !r.guards_ok() || !t.guards_ok()) ctx.violation(id, "write outside a declared extent");
+        ctx.metric_add(0, cnt);
+        ctx.end_case(rs > 0);
+      }
+    }
+  }
+}
+
 int main(int argc, char** argv) {
   Args args = parse_args("C05", argc, argv, 300, 1800);
   Ctx ctx(args);
@@ -218,15 +268,16 @@ int main(int argc, char** argv) {
   if (th) Ns.push_back(1024);
   for (uint64_t N : Ns) for (auto& c : cfgs(th)) items.push_back({1, 0, N, c});
   for (unsigned k = 1; k <= 62; ++k) items.push_back({2, k, 0, CFG_NATIVE});
+  for (unsigned k = 1; k <= 62; ++k) items.push_back({3, k, 0, CFG_NATIVE});
   ctx.parallel(items.size(), [&](uint64_t i) {
     const It& it = items[i];
-    if (it.part == 0) part_a(ctx, it.k, th); else if (it.part == 1) part_b(ctx, it.N, it.cfg, th); else part_c(ctx, it.k);
+    if (it.part == 0) part_a(ctx, it.k, th); else if (it.part == 1) part_b(ctx, it.N, it.cfg, th); else if (it.part == 2) part_c(ctx, it.k); else part_d(ctx, it.k, th);
   });
   ctx.assumptions = {"|a_i| <= 2^62 (documented domain of znx_normalize)", "carry_in of the single-limb primitive bounded by 2^(63-k) (half of the documented 65-k bits, so that in-domain sums cannot overflow)",
                      "the digit oracle (carry chain in __int128) is cross-checked against the definition T mod 2^(k a_size) in 320-bit arithmetic on every enumerated tuple"};
   return ctx.finish("exploration",
                     "part A: k=1..62 x a_size 1..4 x all tuples over the per-k boundary alphabet (complete for a_size<=3; digit-boundary tuples for a_size 4) x res_size 0..4, plus complete scopes "
                     "(all limbs in [-2^(k+1),2^(k+1)]) for small k; part B: k-set x (res_size,a_size) in {0..4}^2 x strides x {small, big, sub-range (begin<=end<=5, step 1..3)} x in/out of place x N x cfg; "
-                    "part C: znx_normalize six argument shapes x k x alphabet pairs. A case (batch of up to 4096 tuples / one shape) is non-trivial when res_size>0 and a_size>0; distinct = distinct case ids",
+                    "part C: znx_normalize six argument shapes x k x alphabet pairs; part D: long carry chains, a_size in {5..140 (300 thorough)} x digit-boundary chains with one deviating position x res_size in {0,1,2,3,a/2,a-1,a,a+2}. A case (batch of up to 4096 tuples / one shape) is non-trivial when res_size>0 and a_size>0; distinct = distinct case ids",
                     true);
 }
